@@ -241,6 +241,11 @@ pub fn run(ctx: &mut Ctx) {
         let mut rng = ctx.rng.fork();
         let mut kinds: Vec<Field> = crate::c18::all_leaves().into_iter().map(|dt| Field { name: "c".into(), data_type: dt, nullable: true, metadata: Default::default() }).collect();
         for parent in 1..8usize { if let Some((f, _)) = crate::c18::under_parent(parent, &DataType::Int32, true) { kinds.push(f); } }
+        // zero-width fixed-size lists: the element array is empty however many records there are; the count is the view's own
+        let fsl0 = DataType::FixedSizeList(Box::new(Field { name: "element".into(), data_type: DataType::Int8, nullable: false, metadata: Default::default() }), 0);
+        kinds.push(Field { name: "c".into(), data_type: fsl0.clone(), nullable: true, metadata: Default::default() });
+        kinds.push(Field { name: "c".into(), data_type: fsl0.clone(), nullable: false, metadata: Default::default() });
+        for parent in 1..8usize { if let Some((f, _)) = crate::c18::under_parent(parent, &fsl0, true) { kinds.push(f); } }
         let nrows = 12usize;
         let ints: Vec<i64> = (0..nrows as i64 + 2).collect();
         for field in &kinds {
